@@ -1,61 +1,8 @@
-import Req.Driver.Proto
-import Req.Client.Result
+import Req.Driver.L.C18Codec
+import Req.Driver.L.C18Pipe
 /-! Driver lanes of C18 (classification and binding; the pipeline lane is in `C18Pipe`). -/
 namespace Req.Driver.L.C18
 open Req.Proto Req.Result
-
-def parseBool : String → Option Bool
-  | "0" => some false
-  | "1" => some true
-  | _ => none
-
-def parseState : String → Option (Option ResultState)
-  | "-" => some none
-  | "S" => some (some .success)
-  | "E" => some (some .error)
-  | "U" => some (some .unknown)
-  | _ => none
-
-def showState : ResultState → String
-  | .success => "S"
-  | .error => "E"
-  | .unknown => "U"
-
-def showBool (b : Bool) : String := if b then "1" else "0"
-
-def parseErr (s : String) : Option (Option Err) :=
-  if s == "-" then some none
-  else if s == "unm" then some (some .unmarshal)
-  else if s == "read" then some (some .read)
-  else if s == "getbody" then some (some .getBody)
-  else if s == "builtin" then some (some .builtin)
-  else if s == "builder" then some (some .builder)
-  else if s == "unreplay" then some (some .unreplayable)
-  else if s == "digest" then some (some .digest)
-  else if s.startsWith "s" then (s.drop 1).toNat?.map fun n => some (.stage n)
-  else none
-
-def showErr : Option Err → String
-  | none => "-"
-  | some (.stage n) => "s" ++ toString n
-  | some .unmarshal => "unm"
-  | some .read => "read"
-  | some .getBody => "getbody"
-  | some .builtin => "builtin"
-  | some .builder => "builder"
-  | some .unreplayable => "unreplay"
-  | some .digest => "digest"
-
-def showCodec : Option Codec → String
-  | none => "-"
-  | some .json => "json"
-  | some .xml => "xml"
-
-def showSlotErr : Option Target → String
-  | none => "-"
-  | some .errorReq => "R"
-  | some .errorCommon => "C"
-  | some .success => "?"
 
 /-- `c18classify <hasHttp> <custom> <status>` → `<state> <isSuccessState> <isErrorState> <autoReadGuard>` -/
 def laneClassify : List String → String
@@ -93,7 +40,8 @@ def laneBind : List String → String
 def lanes : List (String × (List String → String)) := [
   ("c18classify", laneClassify),
   ("c18ct", laneCt),
-  ("c18bind", laneBind)
+  ("c18bind", laneBind),
+  ("c18pipe", lanePipe)
 ]
 
 end Req.Driver.L.C18
